@@ -304,27 +304,47 @@ def gfPow2 (w : Nat) : Nat → Nat
   | 0 => 1
   | k + 1 => gfMul w 2 (gfPow2 w k)
 
+/-- exp/log tables of GF(2^w), built with `gfMul` by repeated multiplication with alpha = 2
+    (an executable device: `GF.mul` computes the same product as `gfMul`) -/
+structure GF where
+  w : Nat
+  exp : Array Nat
+  log : Array Nat
+
+def GF.make (w : Nat) : GF :=
+  let size := 2 ^ w
+  let exp := ((List.range (size - 1)).foldl (fun (p : Array Nat × Nat) _ =>
+      (p.1.push p.2, gfMul w p.2 2)) (#[], 1)).1
+  let log := (List.range (size - 1)).foldl (fun (l : Array Nat) i => l.setIfInBounds (exp.getD i 0) i)
+      (Array.replicate size 0)
+  ⟨w, exp, log⟩
+
+def GF.mul (g : GF) (a b : Nat) : Nat :=
+  if a = 0 ∨ b = 0 then 0
+  else g.exp.getD ((g.log.getD a 0 + g.log.getD b 0) % (2 ^ g.w - 1)) 0
+
 /-- multiply a polynomial (highest degree first, as an Array) by (x + r) -/
-def polyMulLin (w : Nat) (g : Array Nat) (r : Nat) : Array Nat :=
+def polyMulLin (gf : GF) (g : Array Nat) (r : Nat) : Array Nat :=
   let n := g.size
   (Array.range (n + 1)).map (fun i =>
-    let hi := if i < n then g[i]?.getD 0 else 0            -- g_i * x
-    let lo := if i ≥ 1 then gfMul w (g[i - 1]?.getD 0) r else 0
+    let hi := if i < n then g.getD i 0 else 0            -- g_i * x
+    let lo := if i ≥ 1 then gf.mul (g.getD (i - 1) 0) r else 0
     hi ^^^ lo)
 
 /-- generator polynomial (x - alpha^1)...(x - alpha^n), monic, highest degree first -/
-def genPoly (w n : Nat) : Array Nat :=
-  (List.range n).foldl (fun g i => polyMulLin w g (gfPow2 w (i + 1))) #[1]
+def genPoly (gf : GF) (n : Nat) : Array Nat :=
+  (List.range n).foldl (fun g i => polyMulLin gf g (gf.exp.getD ((i + 1) % (2 ^ gf.w - 1)) 1)) #[1]
 
 /-- remainder of data(x) * x^n modulo the generator: the n check words -/
 def rsParity (w n : Nat) (data : List Nat) : List Nat :=
-  let g := genPoly w n               -- size n+1, g[0] = 1
+  let gf := GF.make w
+  let g := genPoly gf n              -- size n+1, g[0] = 1
   let gl := (g.toList.drop 1)        -- n coefficients below the leading one
   let rem := data.foldl (fun (rem : List Nat) d =>
       -- rem has n entries; feedback = d + rem[0]
       let fb := d ^^^ rem.headD 0
       let shifted := rem.drop 1 ++ [0]
-      List.zipWith (fun r gc => r ^^^ gfMul w fb gc) shifted gl) (List.replicate n 0)
+      List.zipWith (fun r gc => r ^^^ gf.mul fb gc) shifted gl) (List.replicate n 0)
   rem
 
 /-! ## §6 mode message -/
